@@ -302,14 +302,14 @@ class C18(Property):
     trusted = [
         "hand model `Model/Chunks.lean` of the control flow of validate_chunks / _auto_chunks / fill_in_chunk_sizes / "
         "equal_sized_chunks / generate_chunks / chunk_ranges around the generated arithmetic (tied by exact correspondence, "
-        "all 1-2 dimensional shapes with sizes 0..4 exhaustively plus random cases, error kinds included)",
+        "a seeded third of all 1-2 dimensional shapes with sizes 0..4 at the quick tier, all of them at the thorough tier, plus random cases, error kinds included)",
         "the `_auto_chunks` round-robin loop is modelled as a zipper over the auto dimensions (cursor j = length of the visited "
         "prefix; the product over all dimensions is F * product over the auto dimensions)",
         "Python int semantics of // and % (floor division; ZeroDivisionError modelled explicitly), arbitrary-precision ints",
     ]
     assumptions = ["dask.utils.parse_bytes and abtem config lookups are trusted: byte budgets reach the model as the parsed byte count and the dtype itemsize"]
     rule = ("validate_chunks cases: random shapes (0-4 dims), chunk arguments (ints incl. -1/0/negative, 'auto', other strings, None, "
-            "tuples mixing ints/'auto'/explicit tuples/empty tuples/None, length mismatches) and limits, plus the exhaustive small grid; "
+            "tuples mixing ints/'auto'/explicit tuples/empty tuples/None, length mismatches) and limits, plus the small grid (all 1-2 dimensional shapes with sizes 0..4: a seeded third at the quick tier, all at thorough); "
             "equal_sized_chunks/generate_chunks/chunk_ranges/iterate_chunk_ranges cases: random ints incl. zero/negative; "
             "distinct = distinct case JSON; non-trivial = the call returns chunks (not an exception)")
 
@@ -387,10 +387,17 @@ class C18(Property):
                 if well_formed and guarded(validate_chunks, shape, v)[1:] != (v,):
                     ctx.violation("validated-chunks-not-idempotent", c, {"observed": ll(v)})
             if well_formed:
-                fixed = prod((s if c_ == -1 else c_ if isinstance(c_, int) else max(c_)) for s, c_ in zip(shape, specs) if c_ != "auto")
-                if r[0] != "ok" and (not has_auto or fixed <= limit):
+                # nominal budget of the fixed dimensions (what the code uses: the int c itself) and the budget of the blocks
+                # they really produce (min(c, s)); between the two the code refuses although a fitting chunking exists
+                nominal = prod((s if c_ == -1 else c_ if isinstance(c_, int) else max(c_)) for s, c_ in zip(shape, specs) if c_ != "auto")
+                actual = prod((s if c_ == -1 else min(c_, s) if isinstance(c_, int) else max(c_)) for s, c_ in zip(shape, specs) if c_ != "auto")
+                if r[0] != "ok" and (not has_auto or nominal <= limit):
                     ctx.violation("valid-chunk-spec-rejected", c, {"observed": list(r)})
-                if r[0] == "ok" and has_auto and fixed <= limit and prod(max(cc) for cc in r[1]) > limit:
+                elif r[0] != "ok" and actual <= limit:
+                    ctx.count("oracle:rejected-in-nominal-window")  # disclosed: 'valid chunking exists' is judged on the nominal sizes
+                    if r[1] != "runtime_error":
+                        ctx.violation("nominal-window-unexpected-error", c, {"observed": list(r)})
+                if r[0] == "ok" and has_auto and actual <= limit and prod(max(cc) for cc in r[1]) > limit:
                     ctx.violation("auto-chunks-exceed-limit", c, {"observed": ll(r[1]), "limit": limit})
         elif c["kind"] == "esc":
             n, m, cs, start = c["n"], c["m"], c["cs"], c["start"]
